@@ -18,4 +18,4 @@ CONSTANTS
   InitDescs <- NarrowInitDescs
 INIT Init
 NEXT Next
-INVARIANTS TypeOK UnobservableFast PendingSound
+INVARIANTS TypeOK Unobservable UnobservableFast PendingSound
